@@ -6,6 +6,7 @@ C05 — property theorems about the interface model (all universally quantified)
   `reconcile_float_keeps_bound_width`                                          — output reconciliation
 * `prune_keeps_positional_partial`, `prune_order`, `prune_keeps_positional_REFUTED`,
   `pruneFixed_keeps_positional`                                                  — input pruning
+* `materialize_prefix`                                                         — input_params only append
 * `rename_exact`, `rename_injective` (= `rename_exact_and_injective`), `rename_keeps_ids` — custom names
 -/
 import J2O.Model.C05
@@ -171,6 +172,23 @@ theorem pruneFixed_keeps_positional (args : List (Bool × Bool)) :
 
 example : prune (bindInputs [(true, false), (false, true)]) = [⟨.pos 1 false, true⟩] := by decide
 example : (prune (bindInputs [(false, false), (true, true), (false, true)])).length = 3 := by decide
+
+/-! ### runtime parameters -/
+
+/-- Materialising `input_params` only appends: the positional inputs stay where they are. -/
+theorem materialize_prefix (inputs inits referenced params : List String) :
+    inputs <+: materialize inputs inits referenced params := by
+  unfold materialize
+  induction params generalizing inputs with
+  | nil => exact List.prefix_refl _
+  | cons p ps ih =>
+    simp only [List.foldl_cons]
+    split
+    · exact ih inputs
+    · exact List.IsPrefix.trans (List.prefix_append _ _) (ih (inputs ++ [p]))
+
+example : materialize ["in_0"] ["w"] ["det", "w", "q"] ["det", "w", "zz", "q"] = ["in_0", "det", "q"] := by
+  decide
 
 /-! ### custom names -/
 
